@@ -7,6 +7,7 @@ NodeExists / NotEmpty errors, one-shot watches, DataWatch/ChildrenWatch
 recipes re-armed until the callback returns False).
 """
 import inspect
+import hashlib
 import threading
 
 import kazoo.exceptions
@@ -285,7 +286,10 @@ class ZkFakeClient:
                 raise NoNodeError(path)
             if watch:
                 self.store.child_watches.setdefault(path, []).append(watch)
-            kids = self.store.children(path)
+            # ZooKeeper promises no order for a listing: the code under test is
+            # handed a fixed scramble (stable across runs), never the sorted list
+            kids = sorted(self.store.children(path),
+                          key=lambda k: hashlib.md5(k.encode('utf8')).digest())
             if include_data:
                 return kids, self.store.stat(path)
             return kids
@@ -428,7 +432,8 @@ class ZkFakeClient:
                 with client.store.lock:
                     if path not in client.store.nodes:
                         return
-                    kids = client.store.children(path)
+                    kids = sorted(client.store.children(path),
+                                  key=lambda k: hashlib.md5(k.encode('utf8')).digest())
                     client.store.child_watches.setdefault(path, []).append(deliver)
                 rc = fn(kids, event) if send_event else fn(kids)
                 if rc is False:
